@@ -4,7 +4,7 @@
 use quandary::class::Class;
 use quandary::db::catalog::Entry;
 use quandary::db::zone::GluePolicy;
-use quandary::db::{HashMapTreeCatalog, HashMapTreeZone};
+use quandary::db::{HashMapTreeCatalog, HashMapTreeZone, SingleZoneCatalog};
 use quandary::message::tsig::Algorithm;
 use quandary::message::Reader;
 use quandary::name::Name;
@@ -36,28 +36,51 @@ pub fn build_catalog(spec: &str) -> CatalogImpl {
             let _ = cat.remove(&name, class);
             continue;
         }
-        let entry = match p[2] {
-            "N" => Entry::NotYetLoaded(name, class, ()),
-            "F" => Entry::FailedToLoad(name, class, ()),
-            _ => {
-                let mut z = HashMapTreeZone::new(name, class, GluePolicy::Narrow);
-                if p.len() > 3 && !p[3].is_empty() {
-                    for r in p[3].split('+') {
-                        let q: Vec<&str> = r.split('/').collect();
-                        let owner = name_of_wire(q[0]);
-                        let ty = Type::from(q[1].parse::<u16>().unwrap());
-                        let ttl = Ttl::from(q[2].parse::<u32>().unwrap());
-                        let rd = unhex(q[3]);
-                        let rdata = <&Rdata>::try_from(&rd[..]).unwrap();
-                        let _ = z.add(&owner, ty, class, ttl, rdata);
-                    }
-                }
-                Entry::Loaded(Arc::new(z), ())
-            }
-        };
-        cat.insert(entry);
+        cat.insert(entry_of(&p, name, class));
     }
     cat
+}
+
+fn entry_of(p: &[&str], name: Box<Name>, class: Class) -> Entry<HashMapTreeZone, ()> {
+    match p[2] {
+        "N" => Entry::NotYetLoaded(name, class, ()),
+        "F" => Entry::FailedToLoad(name, class, ()),
+        _ => {
+            let mut z = HashMapTreeZone::new(name, class, GluePolicy::Narrow);
+            if p.len() > 3 && !p[3].is_empty() {
+                for r in p[3].split('+') {
+                    let q: Vec<&str> = r.split('/').collect();
+                    let owner = name_of_wire(q[0]);
+                    let ty = Type::from(q[1].parse::<u16>().unwrap());
+                    let ttl = Ttl::from(q[2].parse::<u32>().unwrap());
+                    let rd = unhex(q[3]);
+                    let rdata = <&Rdata>::try_from(&rd[..]).unwrap();
+                    let _ = z.add(&owner, ty, class, ttl, rdata);
+                }
+            }
+            Entry::Loaded(Arc::new(z), ())
+        }
+    }
+}
+
+pub type SingleCatalogImpl = SingleZoneCatalog<HashMapTreeZone, ()>;
+
+/// The other `Catalog` implementation of the crate: a catalog description with exactly one entry (and no
+/// removal) served through `SingleZoneCatalog`.
+pub fn build_server_single(edns: u16, catalog: &str, keys: &str) -> Option<Server<SingleCatalogImpl>> {
+    if catalog == "-" || catalog.contains(';') {
+        return None;
+    }
+    let p: Vec<&str> = catalog.split(',').collect();
+    if p[2] == "R" {
+        return None;
+    }
+    let class = Class::from(p[0].parse::<u16>().unwrap());
+    let entry = entry_of(&p, name_of_wire(p[1]), class);
+    let mut s = Server::new(Arc::new(SingleZoneCatalog::new(entry)));
+    s.set_edns_udp_payload_size(edns).expect("edns size");
+    s.set_tsig_keys(Arc::new(build_keys(keys)));
+    Some(s)
 }
 
 /// `-` or `namewire,1|256,keyhex;...`
